@@ -20,7 +20,7 @@ class Prop(BaseProp):
     budget = {"quick": 1400, "thorough": 42000}
     must_see = ["thr_exact_hit_N-1=1", "thr_exact_hit_N-1=2", "thr_exact_hit_N-1=4", "thr_zero", "thr_one", "thr_random",
                 "spike_value_equals_threshold", "simultaneous_spikes", "max_tau_positive", "mrts_positive",
-                "profile_crosscheck", "removed_checked", "monotone_checked", "empty_train_in_list"]
+                "profile_crosscheck", "removed_checked", "monotone_checked", "empty_train_in_list", "reconcile_off"]
     arm_files = [("pyspike/spike_sync.py", ["filter_by_spike_sync"]), ("pyspike/cython/python_backend.py", ["coincidence_single_python"])]
     assumptions = ["coincidence per pair: exact pairwise model (as C03)", "on non-dyadic input, spikes involved in a "
                    "rounding-ambiguous coincidence are not judged"]
@@ -74,6 +74,11 @@ class Prop(BaseProp):
                     for (p, q) in near:
                         amb[i][p] = True
                         amb[j][q] = True
+        if ctx.evals % 3 == 1:
+            # valid input: switching reconciliation off must not change anything (and exercises the code path in which
+            # the caller's own objects - possibly the same object listed twice - reach the per-spike scan)
+            kw["Reconcile"] = False
+            ctx.count("reconcile_off")
         res = ctx.call(ps.filter_by_spike_sync, sts, thr, return_removed_spikes=True, **kw)
         if not ctx.expect(isinstance(res, (list, tuple)) and len(res) == 2 and len(res[0]) == N and len(res[1]) == N, "filter:shape",
                           "filter(return_removed_spikes=True) returned %s" % common.short(res)):
@@ -109,7 +114,8 @@ class Prop(BaseProp):
                        % (n, N, thr, common.short(ks), common.short(want), c[n]))
         # ---- cross-check the model count against the real profiles
         ctx.count("profile_crosscheck")
-        mp = ctx.call(ps.spike_sync_profile, sts, **kw) if N > 2 else ctx.call(ps.spike_sync_profile, sts[0], sts[1], **kw)
+        kwp = {q: v for q, v in kw.items() if q != "Reconcile"}
+        mp = ctx.call(ps.spike_sync_profile, sts, **kwp) if N > 2 else ctx.call(ps.spike_sync_profile, sts[0], sts[1], **kwp)
         xs = mp.x[1:-1].tolist()
         for n in range(N):
             for q, t in enumerate(tr[n]):
